@@ -8,7 +8,10 @@ if ! git apply "$P" 2>/tmp/apply.err; then
   if ! git apply --3way "$P" 2>>/tmp/apply.err; then echo "PATCH DOES NOT APPLY: $(head -3 /tmp/apply.err)"; git checkout HEAD -- . ; git reset -q; exit 8; fi
 fi
 git reset -q 2>/dev/null
+# the evidence file describes the unchanged tree: keep it out of the way of a run on a patched tree
+EV=/verif/evidence/$ID.json; SAVE=$(mktemp); [ -f "$EV" ] && cp "$EV" "$SAVE"
 cd /verif && ./vc check "$ID" --tier "$T"; rc=$?
+[ -s "$SAVE" ] && cp "$SAVE" "$EV"; rm -f "$SAVE"
 cd /repo && git checkout -- . && git clean -fdq -e target
 echo "rc=$rc"
 exit $rc
